@@ -352,8 +352,8 @@ def get_logical_instruction_at_offset(
                     ]:
                         argval += 2
 
-                # FOR_ITER has a cache instruction in 3.12
-                if opc.version_tuple >= (3, 12) and opname == "FOR_ITER":
+                # FOR_ITER and SEND have a cache instruction in 3.12
+                if opc.version_tuple >= (3, 12) and opname in ("FOR_ITER", "SEND"):
                     argval += 2
                 argrepr = "to " + repr(argval)
             elif op in opc.JABS_OPS:
